@@ -527,13 +527,48 @@ impl Task for ExternalEquivalenceTask {
             }
         }
 
+        let mut task_predicates: IndexSet<fol::Predicate> = match self.specification {
+            Either::Left(ref program) => program
+                .predicates()
+                .into_iter()
+                .map(fol::Predicate::from)
+                .collect(),
+            Either::Right(ref specification) => specification.predicates(),
+        };
+        task_predicates.extend(self.program.predicates().into_iter().map(fol::Predicate::from));
+
         let theory_translate = |program: asp::Program| {
+            let program_predicates: IndexSet<fol::Predicate> = program
+                .predicates()
+                .into_iter()
+                .map(fol::Predicate::from)
+                .collect();
+
             // TODO: allow more formula representations beyond tau-star
             let mut theory = program
                 .tau_star()
                 .replace_placeholders(&placeholders)
                 .completion(self.user_guide.input_predicates())
                 .expect("tau_star did not create a completable theory");
+
+            // An output predicate that does not occur in the program is false in all of its
+            // stable models, hence it needs an (empty) completed definition as well
+            // (unless the other side does not mention it either)
+            for predicate in self.user_guide.output_predicates() {
+                if task_predicates.contains(&predicate) && !program_predicates.contains(&predicate)
+                {
+                    let atom = predicate.to_formula();
+                    let variables = atom.free_variables().into_iter().collect();
+                    theory.formulas.push(
+                        fol::Formula::BinaryFormula {
+                            connective: fol::BinaryConnective::Equivalence,
+                            lhs: atom.into(),
+                            rhs: fol::Formula::AtomicFormula(fol::AtomicFormula::Falsity).into(),
+                        }
+                        .quantify(fol::Quantifier::Forall, variables),
+                    );
+                }
+            }
 
             if self.simplify {
                 let mut portfolio = [INTUITIONISTIC, HT, CLASSIC].concat().into_iter().compose();
